@@ -950,7 +950,7 @@ pub fn stiff(args: &[String]) {
                 if mx > 3 * mn + 60 { why = format!("step counts grow with the stiffness ratio: (attempts, rejected) = {:?} for 1e2..1e10", counts); key = "c14-steps"; }
                 else if rx > 3 * rn + 60 { why = format!("rejected attempts grow with the stiffness ratio: (attempts, rejected) = {:?} for 1e2..1e10", counts); key = "c14-steps"; }
             }
-            r14(300000 + k, "tight-tolerance", method, key, &why, &format!("\"n\":{},\"user_jac\":{},\"rtol\":1e-9,\"counts\":{:?},", n, user_jac, counts));
+            r14(300000 + k, "tight-tolerance", method, key, &why, &format!("\"n\":{},\"user_jac\":{},\"rtol\":1e-9,\"counts\":{:?},", n, user_jac, counts.iter().map(|c| vec![c.0, c.1]).collect::<Vec<_>>()));
             k += 1;
         } } }
     }
